@@ -233,10 +233,11 @@ func (tb *TransactionBuilder) AddSignatures(
 		return nil, fmt.Errorf("wrong signatures count")
 	}
 
-	for i, input := range tb.internal.TxIn {
-		signature := signatures[i]
-
-		// Make a sanity check to avoid producing crap transactions.
+	// Make a sanity check to avoid producing crap transactions. All signatures
+	// are checked before any of them is applied: a rejected call must leave
+	// the inputs untouched, otherwise the already rewritten inputs would be
+	// taken for pre-filled redeem script data by a later call.
+	for i, signature := range signatures {
 		if !ecdsa.Verify(
 			signature.PublicKey,
 			tb.sigHashes[i].Bytes(),
@@ -245,6 +246,10 @@ func (tb *TransactionBuilder) AddSignatures(
 		) {
 			return nil, fmt.Errorf("invalid signature for input [%v]", i)
 		}
+	}
+
+	for i, input := range tb.internal.TxIn {
+		signature := signatures[i]
 
 		signatureBytes := append(
 			(&btcec.Signature{R: signature.R, S: signature.S}).Serialize(),
